@@ -410,8 +410,13 @@ def nilCfgCase (impl : String) : Verdict :=
     and ListenAndServe returns ErrServerShutdown.  (What Serve does on the socket is the scenarios' business; this
     case is about the socket being opened on `Addr` / `Network`, served, and closed.) -/
 def listenCase (impl : String) : Verdict :=
-  let model := "reply=auth=true:code=2:id-matches=true handled=yes shutdown=nil ret=shutdown"
+  let model := "reply=auth=true:code=2:id-matches=true handled=yes pair=2:2 shutdown=nil ret=shutdown"
+  -- `pair=<handlers started>:<authentic replies>`: two peers on one host (same IP, different source ports) send the
+  -- same identifier while the first handler is still running; the model keys requests in flight by (source address,
+  -- identifier) (`Server.lean`, `at_most_one_inflight` is per key), so both are served
   mk impl model [("no_panic", !((impl.splitOn "PANIC").length > 1 || (impl.splitOn "CRASH").length > 1)),
+                 ("two_peers_on_one_host_with_the_same_identifier_are_both_served",
+                    (impl.splitOn " pair=").length ≤ 1 || (impl.splitOn " pair=2:2 ").length > 1 || (impl.splitOn " pair=- ").length > 1),
                  ("listen_and_serve_serves_on_its_address_until_shutdown", impl == model)]
 
 /-- `finishes n`: n DIFFERENT requests in flight on one Serve call, their handlers return at the same instant
